@@ -1,17 +1,21 @@
 """C10 - all representations of one groove or roll surface describe the same shape.
 
 Tie: T - on every run driver/translate/c10_depth.py re-reads from the working tree (a) the junction chain, every
-`_*_contour_line` method, the `np.piecewise` table of `local_depth` and the statement list of `_enumerate_contour_points`
-of `GenericElongationGroove`, (b) `Roll.contour_points / surface_x / surface_z / surface_y`, the axes handed to `interpn`
-in `Roll.surface_interpolation`, (c) the face test (`np.isclose(y, 0)` or `np.abs(y) <= <tolerance term>`, whichever the
+`_*_contour_line` method, what `local_depth` does to its ARGUMENT before `np.piecewise` (`np.abs`, `np.asarray(.., dtype=float)`
+and friends -> `ArgOp` list `depth_arg_ops`), the `np.piecewise` table of `local_depth` and the statement list of
+`_enumerate_contour_points` of `GenericElongationGroove`, (b) `Roll.contour_points / surface_x / surface_z / surface_y`, what
+`Roll.surface_interpolation` does to the positions `x`, `z` (`interp_x_ops`, `interp_z_ops`), the axes handed to `interpn`
+and the layout of its result, (c) the face test (`np.isclose(y, 0)` or `np.abs(y) <= <tolerance term>`, whichever the
 source has; `FaceTest` of the model), the centring / half-width / width / usable-width / depth terms, the step order of
 `SplineGroove.__init__` and what each step does to the identity of the vertex array (`ArrOp`: asarray / view / copy /
 in-place write / store), (d) `SymmetricRollPass.entry_point` into lean/PyrollModel/Gen/C10.lean; the theorems of
 lean/PyrollProps/C10.lean are about these generated tables run by the hand-written model lean/PyrollModel/GrooveRep.lean.
 K - the Float run of the model is compared with the real objects: junction chain and contour-line methods against the
 groove's attributes/methods, the model's contour polyline against `groove.contour_points` vertex by vertex, the model's
-depth function against `groove.local_depth` on 50 abscissae (junctions +- 1 ulp), `surface_x`, grid nodes and (bi)linear
-interpolation against the real roll (whichever way its radius was given; `min_radius` / `max_radius` through the translated
+depth function against `groove.local_depth` on 50 abscissae (junctions +- 1 ulp) and - with the conversions of the argument -
+on integer lists / int64 arrays / float arrays (same values AND same kind of dtype handed back: an integer dtype = truncated),
+`surface_x`, grid nodes, (bi)linear interpolation and the array form `surface_interpolation(xq, zq)` for integer / float /
+mixed positions (values and layout: one row per z) against the real roll (whichever way its radius was given; `min_radius` / `max_radius` through the translated
 hooks), the spline model (face test on ordinates around its tolerance, stripping, centring, width, usable width, depth, interp1; whether the groove's array shares
 memory with the caller's and whether the constructor wrote into it) against real `SplineGroove`s built from lists, tuples,
 float64 arrays and views, the closed formulas against the python functions on stubs; (e) what a `Roll` keeps on the object
@@ -20,6 +24,8 @@ empties before resp. after the hook values are re-evaluated, pure / remembering 
 life of the object (changes + `reevaluate_cache()`, calls) is compared with a real `Roll` step by step.
 The independent oracle checks the property text on the real objects (see `_oracle_*`) - on new rolls and on USED ones: after
 every change in the life of one roll object (`_roll_life`) and on the roll of a pass that is solved again (`_pass_roll_case`).
+Positions (`local_depth(z)`, `surface_interpolation(x, z)`) are handed over in every numeric kind a caller may hold them in
+(`NUMERIC_KINDS`, `_oracle_numeric_kinds`, `_oracle_roll_numeric`, `_integer_vertices`).
 """
 import math
 import warnings
@@ -36,7 +42,15 @@ RULE = ("(a) grooves of every parametric class (20 classes, feasible catalogue p
         "3 decades, one parameter jittered +-3 %) and directly constructed GenericElongationGroove trapezoids with fillets "
         "(closure computed), pad angle 0 / 30 deg / random 1..44 deg, GROOVE_RADIUS_POINT_COUNT 2..30 or the default; 50 query "
         "abscissae per groove: every junction z0..z7 exactly and +-1 ulp on both sides of the centre, 0, and uniform inside "
-        "the groove; (b) rolls on these grooves with the radius at the highest point of the groove log-uniform 1.2..100 x the "
+        "the groove; (a2) every depth function (generic and spline grooves) is also asked with positions in each of 47 numeric "
+        "kinds - python int / float, numpy int8..int64 / uint8..uint64 / float16 / float32 / float64 / longdouble scalars, 0-d "
+        "arrays, lists, tuples, nested lists, lists of numpy scalars, mixed int/float lists, integer / unsigned / float arrays of "
+        "every width, non-contiguous views, read-only arrays, 2-D arrays (C and Fortran order), empty ones - with 1 (scalars) or "
+        "2..5 positions inside 1.1 x the groove width that are EXACTLY representable in the kind (whole numbers: 0, +-1, +-2, +-3, "
+        "the whole numbers next to the ends and to every junction / vertex, -128 for int8, random ones; floats: rounded to the "
+        "kind), and every contour vertex with a whole-numbered abscissa with that abscissa as an integer; 15 % of the spline "
+        "polylines are drawn on a lattice of whole numbers; rolls: surface_interpolation(x, z) with both positions in each of 14 "
+        "kinds and 3 mixed pairs (every new roll, one in three later looks at a used roll); (b) rolls on these grooves with the radius at the highest point of the groove log-uniform 1.2..100 x the "
         "groove size, given as nominal_radius / nominal_diameter / explicit max_radius below or above the nominal radius / "
         "max_radius alone, contact length "
         "log-uniform 1e-3..0.9 of the minimal radius or absent, ROLL_SURFACE_DISCRETIZATION_COUNT 2..24 or the default; query "
@@ -65,8 +79,15 @@ ASSUMPTIONS = [
     "(tensor product of two 1-D interpolations); the model is compared with scipy on every generated roll / spline (rtol 1e-9)",
     "IEEE rounding: theorems are over the reals; 'lies on', 'reproduces', 'symmetric' are checked on floats with a tolerance of "
     "1e-8 x the size of the object (rounding of a dozen operations; the defects found are >= 1e-3 x size)",
-    "np.linspace, np.piecewise (last true condition wins, extra function = default), np.isclose, np.roll, np.mean/min/max/ptp are "
+    "np.linspace, np.piecewise (last true condition wins, extra function = default, RESULT allocated with the dtype of its first "
+    "argument: a float stored into an integer result is truncated toward zero), np.abs / np.asarray (keep the dtype) / "
+    "np.asarray(.., dtype=float) (every numeric kind becomes float64), np.isclose, np.roll, np.mean/min/max/ptp are "
     "modelled by hand in PyrollModel/GrooveRep.lean and validated by the correspondence",
+    "the numeric kind of an argument is modelled as integer (unbounded: fixed-width overflow such as abs(int8(-128)) is not "
+    "modelled - the oracle asks with -128 as int8) or float (one float type: evaluation of float32 / float16 arguments in "
+    "their own precision is not modelled - the oracle asks with them); that numpy gives a list / tuple / nested list ONE dtype "
+    "(float as soon as one entry is a float) and that scipy's interpn evaluates in float64 whatever the dtype of the query points "
+    "is part of the hand-written model, observed by the oracle",
     "Params (radii >= 0, arcs graphs over z, flank closes at z4) and Ordered (z7 <= z6 <= ... <= z0) are hypotheses of the groove "
     "theorems; they are checked on every generated generic groove (closure is what the constructors' solvers establish - C04)",
     "that the surface_x grid is strictly ascending is a hypothesis of the interpolation theorems (scipy demands it)",
@@ -120,6 +141,13 @@ CORPUS_GROOVES = [
     {"cls": "FlatGroove", "kwargs": dict(usable_width=100, r1=20, pad_angle=30)},
     {"cls": "CircularOvalGroove", "kwargs": dict(depth=5.05, r1=7, r2=33, pad_angle=17.3)},
     {"cls": "BoxGroove", "kwargs": dict(depth=52, r1=15, r2=18, usable_width=185.29, ground_width=157.62, pad_angle=0)},
+    # integer abscissae (reported by an independent tester): local_depth(3) = 8 but local_depth(3.0) = 8.539..., [3, 4] -> [8 8]
+    {"cls": "RoundGroove", "kwargs": dict(r1=2, r2=10, depth=9, pad_angle=0),
+     "numeric": [{"kind": "python-int", "values": [3]}, {"kind": "int-list", "values": [3, 4]}]},
+    # the witness of the Lean theorem `C10.unconverted_integer_argument_is_truncated` (trapezoid `σ1`): 1/2 deep at the abscissa 2
+    {"cls": "GenericElongationGroove", "kwargs": dict(usable_width=5, depth=1, even_ground_width=3, flank_angle=math.pi / 4,
+                                                      r1=0, r2=0, pad=1, pad_angle=0),
+     "numeric": [{"kind": "python-int", "values": [2]}, {"kind": "int64-array", "values": [2, -2, 0]}]},
 ]
 CORPUS_SPLINES = [
     {"points": [[-2, 0], [-1, 1], [1, 1], [2, 0]], "refined": [[-2, 0], [-1.75, 0.25], [-1.5, 0.5], [-1, 1], [1, 1], [2, 0]]},
@@ -158,9 +186,19 @@ CORPUS_SEQUENCES = [
 # `C10.roll_reset_order_as_required` stops building) and the clauses report violations with replays on any source form.
 RESET_FIRST_REQUIRED = True
 
+# `GenericElongationGroove.local_depth` exists in two source forms.  OLD: `z = np.abs(z); return np.piecewise(z, ...)` -
+# `np.piecewise` allocates its result with the dtype of `z`, so for integer abscissae (python int, numpy integers, lists /
+# arrays of them) the depth is TRUNCATED to a whole number (local_depth(3) = 8, local_depth(3.0) = 8.539...), and float32 /
+# float16 abscissae are evaluated in that precision.  REPAIRED: `z = np.abs(np.asarray(z, dtype=float))`.  Translator and model
+# read and run either form (`depth_arg_ops` of the generated file, `localDepthElem` of the model: the correspondence holds on
+# both, truncation included); the oracle reports the old form on every run (`depth-by-numeric-type:*`).  With this flag True
+# a source whose `local_depth` does not convert to float64 is also a broken tie (translator gap; theorem
+# `C10.depth_argument_conversion_as_required` stops building).
+DEPTH_FLOAT_REQUIRED = True
+
 
 def translate(ctx):
-    ctx.c10_info = c10_depth.emit(ctx, reset_first_required=RESET_FIRST_REQUIRED)
+    ctx.c10_info = c10_depth.emit(ctx, reset_first_required=RESET_FIRST_REQUIRED, depth_float_required=DEPTH_FLOAT_REQUIRED)
 
 
 def _groove_replacement_strict(ctx):
@@ -283,9 +321,258 @@ def _query_abscissae(rng, g, n=50):
 
 
 # ------------------------------------------------------------------------------------------------------------------
+# the numeric kinds of a position: a depth function / a surface is a function of the POSITION, not of the python / numpy
+# type the caller happens to hold that position in
+# ------------------------------------------------------------------------------------------------------------------
+# kind -> (value class, key class).  Value classes: "int" any integer, "i8"/"i16" integers of that width, "uint" non-negative
+# integers, "f16"/"f32" floats exactly representable in that format, "f64" any float, "mixed" integers and floats in one list,
+# "empty" no value at all.  The values handed over are always EXACTLY representable in the kind, so the position is the same
+# real number in every kind and the reference is the value at the python float of that number.
+NUMERIC_KINDS = {
+    "python-int": ("int", "python-int"),
+    "numpy-int64": ("int", "numpy-int-scalar"), "numpy-int32": ("int", "numpy-int-scalar"),
+    "numpy-int16": ("i16", "numpy-int-scalar"), "numpy-int8": ("i8", "numpy-int-scalar"),
+    "numpy-uint8": ("u8", "numpy-uint-scalar"), "numpy-uint16": ("uint", "numpy-uint-scalar"),
+    "numpy-uint32": ("uint", "numpy-uint-scalar"), "numpy-uint64": ("uint", "numpy-uint-scalar"),
+    "int64-0d-array": ("int", "int-0d-array"), "int32-0d-array": ("int", "int-0d-array"),
+    "int-list": ("int", "int-list"), "int-tuple": ("int", "int-list"), "numpy-int-list": ("int", "int-list"),
+    "int-nested-list": ("int", "int-list"),
+    "int64-array": ("int", "int-array"), "int32-array": ("int", "int-array"), "int64-view": ("int", "int-array"),
+    "int16-array": ("i16", "small-int-array"), "int8-array": ("i8", "small-int-array"),
+    "uint8-array": ("u8", "uint-array"), "uint16-array": ("uint", "uint-array"), "uint64-array": ("uint", "uint-array"),
+    "int64-2d-array": ("int", "int-2d-array"),
+    "mixed-list": ("mixed", "mixed-list"), "mixed-tuple": ("mixed", "mixed-list"),
+    "float-list": ("f64", "float-list"), "float-tuple": ("f64", "float-list"), "integral-float-list": ("int", "float-list"),
+    "python-float": ("f64", "python-float"), "integral-python-float": ("int", "python-float"),
+    "numpy-float64": ("f64", "numpy-float64-scalar"),
+    "numpy-float32": ("f32", "float32"), "float32-0d-array": ("f32", "float32"), "float32-array": ("f32", "float32"),
+    "numpy-float16": ("f16", "float16"), "float16-array": ("f16", "float16"),
+    "numpy-longdouble": ("f64", "longdouble"), "longdouble-array": ("f64", "longdouble"),
+    "float64-0d-array": ("f64", "float64-array"), "float64-array": ("f64", "float64-array"),
+    "float64-view": ("f64", "float64-array"), "float64-readonly": ("f64", "float64-array"),
+    "float64-2d-fortran": ("f64", "float64-array"),
+    "empty-list": ("empty", "empty"), "empty-int-array": ("empty", "empty"), "empty-float-array": ("empty", "empty"),
+}
+SCALAR_KINDS = {k for k in NUMERIC_KINDS if (k.startswith(("python-", "numpy-", "integral-python-")) and not k.endswith("-list"))
+                or k.endswith("-0d-array")}
+# the subset looked at on rolls (two positions per call): one kind for both coordinates
+ROLL_KINDS = ["python-int", "numpy-int64", "numpy-int8", "int64-0d-array", "int-list", "int64-array", "int32-array", "uint16-array",
+              "mixed-list", "float-list", "numpy-float32", "float32-array", "float64-view", "float64-readonly"]
+
+
+def _numeric_arg(kind, values):
+    """the object of kind `kind` holding the positions `values` (python numbers, exactly representable in the kind)"""
+    import numpy as np
+    v = list(values)
+    one = v[0] if v else None
+    scalar = {"python-int": int, "python-float": float, "integral-python-float": float,
+              "numpy-int64": np.int64, "numpy-int32": np.int32, "numpy-int16": np.int16, "numpy-int8": np.int8,
+              "numpy-uint8": np.uint8, "numpy-uint16": np.uint16, "numpy-uint32": np.uint32, "numpy-uint64": np.uint64,
+              "numpy-float64": np.float64, "numpy-float32": np.float32, "numpy-float16": np.float16,
+              "numpy-longdouble": np.longdouble}
+    if kind in scalar:
+        return scalar[kind](one)
+    if kind.endswith("-0d-array"):
+        return np.array(one, dtype=kind.split("-")[0])
+    if kind in ("int-list", "mixed-list", "float-list", "empty-list"):
+        return list(v)
+    if kind == "integral-float-list":
+        return [float(a) for a in v]
+    if kind in ("int-tuple", "mixed-tuple", "float-tuple"):
+        return tuple(v)
+    if kind == "numpy-int-list":
+        return [np.int64(a) for a in v]
+    if kind == "int-nested-list":
+        return [list(v), list(reversed(v))]
+    if kind == "int64-2d-array":
+        return np.array([v, list(reversed(v))], dtype=np.int64)
+    if kind == "float64-2d-fortran":
+        return np.asfortranarray(np.array([v, list(reversed(v))], dtype=np.float64))
+    if kind in ("int64-view", "float64-view"):
+        big = np.full(2 * len(v) + 1, 7, dtype=kind.split("-")[0])
+        big[1::2] = v
+        return big[1::2]
+    if kind == "float64-readonly":
+        a = np.array(v, dtype=np.float64)
+        a.flags.writeable = False
+        return a
+    if kind in ("empty-int-array", "empty-float-array"):
+        return np.array([], dtype=np.int64 if "int" in kind else np.float64)
+    if kind.endswith("-array"):
+        return np.array(v, dtype=kind[:-len("-array")])
+    raise ValueError(f"unknown numeric kind {kind!r}")
+
+
+def _arg_positions(kind, values):
+    """the positions an argument of kind `kind` holds, in the layout of the argument (nested for the 2-D kinds)"""
+    v = [float(a) for a in values]
+    if kind in SCALAR_KINDS:
+        return v[0]
+    if kind in ("int-nested-list", "int64-2d-array", "float64-2d-fortran"):
+        return [v, list(reversed(v))]
+    return v
+
+
+def _values_of_class(rng, vclass, lo, hi, n, fixed=()):
+    """`n` positions in [lo, hi] exactly representable in the value class (fewer if the interval holds fewer); `fixed`
+    (integers of special interest: 0, +-1, the integers next to the ends / the junctions) come first where they fit"""
+    import numpy as np
+    if vclass == "empty":
+        return []
+    if vclass in ("int", "i8", "i16", "u8", "uint", "mixed"):
+        a, b = math.ceil(lo), math.floor(hi)
+        if vclass in ("uint", "u8"):
+            a = max(a, 0)
+        if vclass in ("i8", "u8", "i16"):
+            w = {"i8": (-128, 127), "u8": (0, 255), "i16": (-32768, 32767)}[vclass]
+            a, b = max(a, w[0]), min(b, w[1])
+        if a > b:
+            return []
+        out = [int(f) for f in fixed if a <= f <= b][: max(n - 1, 1)]
+        if vclass == "i8" and a == -128:
+            out.insert(0, -128)                # the integer whose absolute value does not exist in its own width
+        while len(out) < n:
+            out.append(rng.randint(a, b))
+        out = out[:n]
+        if vclass == "mixed":
+            # integers and floats in one list (at least one float): numpy makes that a float array
+            out = [v if i % 2 == 0 else float(np.float32(rng.uniform(lo, hi))) for i, v in enumerate(out + [0])]
+        return out
+    cast = {"f16": np.float16, "f32": np.float32, "f64": np.float64}[vclass]
+    out = []
+    for _ in range(4 * n):
+        v = float(cast(rng.uniform(lo, hi)))
+        if lo <= v <= hi and math.isfinite(v):
+            out.append(v)
+        if len(out) == n:
+            break
+    return out
+
+
+def _numeric_specs(rng, lo, hi, fixed, kinds=None, given=None):
+    """the arguments one depth function / one roll is asked with: every kind, 1 position for the scalar kinds, 2..5 for the
+    others; `given` (replay) first.  -> [{"kind", "values"}]"""
+    specs = [dict(s) for s in (given or []) if s.get("kind") in NUMERIC_KINDS and "values" in s]
+    for kind in (kinds or list(NUMERIC_KINDS)):
+        vclass = NUMERIC_KINDS[kind][0]
+        n = 1 if kind in SCALAR_KINDS else rng.randrange(2, 6)
+        f = list(fixed)
+        rng.shuffle(f)
+        vals = _values_of_class(rng, vclass, lo, hi, n, fixed=f)
+        if vals or vclass == "empty":
+            specs.append({"kind": kind, "values": vals})
+    return specs
+
+
+def _oracle_numeric_kinds(ctx, rp, call, ref, lo, hi, fixed, L, prefix, stage="", given=None, what="local_depth"):
+    """The value at a position does not depend on the numeric type the position is handed over in (python int / float, numpy
+    integer / unsigned / float scalars of every width, 0-d arrays, lists, tuples, nested lists, integer / float arrays, views,
+    read-only arrays, mixed lists, negative values, nothing at all): asked with ANY of them, `call` answers - in the layout of
+    the argument - what it answers for the python floats of the same positions (`ref`; that one is held against the contour
+    polyline by the other clauses).  Tolerance: rounding only (RTOL x size), the positions are exact in every kind.  An
+    exception raised inside the implementation for a position inside the object is reported as well."""
+    import numpy as np
+    tol = RTOL * L
+    memo = {}
+
+    def ref_of(p):
+        if p not in memo:
+            memo[p] = ref(p)
+        return memo[p]
+
+    for spec in _numeric_specs(ctx.rng, lo, hi, fixed, given=given):
+        kind, values = spec["kind"], spec["values"]
+        kclass = NUMERIC_KINDS[kind][1]
+        arg = _numeric_arg(kind, values)
+        pos = _arg_positions(kind, values)
+        ctx.count("numeric-kind:" + kclass)
+        try:
+            with np.errstate(all="ignore"), warnings.catch_warnings():
+                warnings.simplefilter("ignore")
+                got = call(arg)
+        except Exception as ex:
+            if not _in_pyroll(ex):
+                raise
+            if kclass == "empty":
+                ctx.count("numeric-kind:empty:raises")      # no position asked for: nothing the property says about it
+                continue
+            ctx.violation(f"{prefix}-raises-for:{kclass}{stage}",
+                          f"{what} raised {type(ex).__name__}: {ex} when asked with {kind} {arg!r}", dict(rp, numeric=[spec]))
+            continue
+        if isinstance(pos, list) and pos and isinstance(pos[0], list):
+            exp = np.array([[ref_of(p) for p in row] for row in pos], dtype=float)
+        elif isinstance(pos, list):
+            exp = np.array([ref_of(p) for p in pos], dtype=float)
+        else:
+            exp = np.array(ref_of(pos), dtype=float)
+        try:
+            gotf = np.asarray(got, dtype=float)
+        except (TypeError, ValueError):
+            ctx.violation(f"{prefix}-shape-for:{kclass}{stage}", f"{what}({kind} {arg!r}) answers {got!r}: not numbers",
+                          dict(rp, numeric=[spec]))
+            continue
+        if gotf.shape != exp.shape:
+            ctx.violation(f"{prefix}-shape-for:{kclass}{stage}",
+                          f"{what} asked with {kind} {arg!r} (shape {exp.shape}) answers with shape {gotf.shape}: {got!r}",
+                          dict(rp, numeric=[spec]))
+            continue
+        bad = ~((np.abs(gotf - exp) <= tol) | (np.isnan(gotf) & np.isnan(exp)))
+        if bad.any():
+            i = tuple(int(v) for v in np.argwhere(bad)[0])
+            p = np.asarray(pos, dtype=float)[i]
+            ctx.violation(f"{prefix}-by-numeric-type:{kclass}{stage}",
+                          f"{what} asked with {kind} {arg!r} answers {got!r}: at the position {float(p)!r} that is "
+                          f"{float(gotf[i])!r}, asked with the python float {float(p)!r} it answers {float(exp[i])!r} "
+                          f"(size of the object {L:.3e})", dict(rp, numeric=[spec], z=float(p)))
+
+
+def _integer_fixed(lo, hi, marks=()):
+    """integers of special interest between lo and hi: 0, +-1, +-2, the integers next to the ends and next to `marks`"""
+    c = {0, 1, -1, 2, -2, 3, -3, math.floor(hi), math.ceil(lo), math.floor(hi) - 1, math.ceil(lo) + 1}
+    for m in marks:
+        c |= {math.floor(m), math.ceil(m), -math.floor(m), -math.ceil(m)}
+    return sorted(v for v in c if lo <= v <= hi)
+
+
+def _integer_vertices(ctx, rp, g, cp, tol, key, given_name):
+    """the contour vertices whose abscissa is a whole number (the centre vertex of every generic groove is one): asked with that
+    whole number AS AN INTEGER the depth function answers the vertex ordinate - the property's 'every vertex lies on the depth
+    function' for a caller who holds the abscissa in an integer"""
+    import numpy as np
+    ks = [k for k in range(len(cp)) if float(cp[k, 0]).is_integer() and abs(cp[k, 0]) < 2 ** 52]
+    if not ks:
+        return
+    ctx.count("integer-abscissa-vertices")
+    for how in ("python-int", "int64-array"):
+        try:
+            with np.errstate(all="ignore"), warnings.catch_warnings():
+                warnings.simplefilter("ignore")
+                if how == "python-int":
+                    d = np.array([float(np.asarray(g.local_depth(int(cp[k, 0])), dtype=float)) for k in ks])
+                else:
+                    d = np.asarray(g.local_depth(np.array([int(cp[k, 0]) for k in ks], dtype=np.int64)), dtype=float)
+        except Exception as ex:
+            if not _in_pyroll(ex):
+                raise
+            ctx.violation(key + ":raises", f"local_depth raised {type(ex).__name__}: {ex} for the integer abscissae of "
+                          f"{given_name} vertices ({how})", rp)
+            return
+        err = np.abs(d.reshape(-1) - cp[ks, 1]) if d.size == len(ks) else np.full(len(ks), np.inf)
+        i = int(np.argmax(err))
+        if not err[i] <= tol:
+            k = ks[i]
+            ctx.violation(key, f"contour vertex {k} ({float(cp[k, 0])!r}, {float(cp[k, 1])!r}): local_depth asked with the integer "
+                          f"{int(cp[k, 0])!r} ({how}) answers {float(d.reshape(-1)[i]) if d.size == len(ks) else d!r}, asked with "
+                          f"the float {float(cp[k, 0])!r} it answers {float(np.asarray(g.local_depth(float(cp[k, 0])), dtype=float))!r}",
+                          dict(rp, vertex=k, z=float(cp[k, 0]), y=float(cp[k, 1]),
+                               numeric=[{"kind": how, "values": [int(cp[j, 0]) for j in ks][:1 if how == "python-int" else None]}]))
+            return
+
+
+# ------------------------------------------------------------------------------------------------------------------
 # oracle: generic groove (from the property text, on the real objects only)
 # ------------------------------------------------------------------------------------------------------------------
-def _oracle_groove(ctx, desc, g, qs):
+def _oracle_groove(ctx, desc, g, qs, numeric=None):
     import numpy as np
     cp = np.asarray(g.contour_points, dtype=float)
     L = _size(cp)
@@ -340,6 +627,12 @@ def _oracle_groove(ctx, desc, g, qs):
         i = int(np.argmax(np.abs(dq - dm)))
         ctx.violation("depth-not-symmetric", f"local_depth({qs[i]!r}) = {dq[i]!r} but local_depth({-qs[i]!r}) = {dm[i]!r}",
                       dict(rp, z=qs[i]))
+    # (4) the depth at an abscissa is the depth at that abscissa, in whatever numeric type the caller holds it
+    marks = [float(getattr(g, n)) for n in JUNCTIONS if getattr(g, n, None) is not None]
+    lo, hi = 1.1 * float(cp[0, 0]), 1.1 * float(cp[-1, 0])
+    _integer_vertices(ctx, rp, g, cp, tol, "vertex-off-depth-function:integer-abscissa:" + pad_key, "the groove's")
+    _oracle_numeric_kinds(ctx, rp, g.local_depth, lambda p: float(np.asarray(g.local_depth(float(p)), dtype=float)), lo, hi,
+                          _integer_fixed(lo, hi, marks), L, "depth", given=numeric)
     return cp, L
 
 
@@ -432,7 +725,7 @@ def _read(what, fn):
         raise
 
 
-def _oracle_roll(ctx, desc, rdesc, g, roll, queries, symmetric_z=True, rp=None, stage="", second_evaluation=True):
+def _oracle_roll(ctx, desc, rdesc, g, roll, queries, symmetric_z=True, rp=None, stage="", second_evaluation=True, numeric=None):
     """`stage` names the point in the life of the roll object at which it is looked at (after its contact length was changed,
     after the pass it belongs to was solved a second time, ...); it is appended to every key (nothing for the first look at a
     new roll).  `rdesc` describes the data the roll has NOW, `rp` how to get there (replay)."""
@@ -441,7 +734,7 @@ def _oracle_roll(ctx, desc, rdesc, g, roll, queries, symmetric_z=True, rp=None, 
     at = f" [{stage[1:]}]" if stage else ""
     cp0 = np.array(g.contour_points, dtype=float, copy=True)      # the groove BEFORE anything is read on the roll
     try:
-        grid = _oracle_roll_(ctx, desc, rdesc, g, roll, queries, symmetric_z, rp, stage, second_evaluation)
+        grid = _oracle_roll_(ctx, desc, rdesc, g, roll, queries, symmetric_z, rp, stage, second_evaluation, numeric)
     except _InterpolationRaised as ex:
         ctx.violation("surface-interpolation-raises-inside-grid" + stage,
                       f"surface_interpolation raised for a point inside the grid{at}: {ex}", rp)
@@ -475,7 +768,64 @@ class _Staged:
         self.ctx.count(key)
 
 
-def _oracle_roll_(ctx, desc, rdesc, g, roll, queries, symmetric_z=True, rp=None, stage="", second_evaluation=True):
+def _oracle_roll_numeric(ctx, rp, roll, xs, zs, tol, given=None):
+    """`surface_interpolation(x, z)` takes positions: the surface at (x, z) is the same in whatever numeric type the two
+    coordinates are handed over (see `_oracle_numeric_kinds`; here both coordinates in one kind, and an integer coordinate
+    together with a float one).  Reference: the answer for float64 arrays of the same positions (held against the grid by
+    the clauses above).  One row per z, one column per x - or the transposed layout the docstring names."""
+    import numpy as np
+    rng = ctx.rng
+    xlo, xhi, zlo, zhi = float(xs[0]), float(xs[-1]), float(zs[0]), float(zs[-1])
+    specs = [dict(s) for s in (given or []) if s.get("kind") in NUMERIC_KINDS and "x" in s and "z" in s]
+    cross = [("python-int", "python-float"), ("float-list", "int64-array"), ("int-list", "numpy-float64")]
+    for kx, kz in [(k, k) for k in ROLL_KINDS] + cross:
+        nx = 1 if kx in SCALAR_KINDS else rng.randrange(2, 5)
+        nz = 1 if kz in SCALAR_KINDS else rng.randrange(2, 5)
+        fx, fz = _integer_fixed(xlo, xhi), _integer_fixed(zlo, zhi)
+        rng.shuffle(fx)
+        rng.shuffle(fz)
+        vx = _values_of_class(rng, NUMERIC_KINDS[kx][0], xlo, xhi, nx, fixed=fx)
+        vz = _values_of_class(rng, NUMERIC_KINDS[kz][0], zlo, zhi, nz, fixed=fz)
+        if vx and vz:
+            specs.append({"kind": kx, "kind_z": kz, "x": vx, "z": vz})
+    for spec in specs:
+        kx, kz = spec["kind"], spec.get("kind_z") or spec["kind"]
+        kclass = NUMERIC_KINDS[kx][1] if kx == kz else NUMERIC_KINDS[kx][1] + "+" + NUMERIC_KINDS[kz][1]
+        ax, az = _numeric_arg(kx, spec["x"]), _numeric_arg(kz, spec["z"])
+        fx, fz = [float(v) for v in spec["x"]], [float(v) for v in spec["z"]]
+        ctx.count("numeric-kind:roll:" + kclass)
+        exp = np.asarray(_read("surface_interpolation (float64 arrays)",
+                               lambda: roll.surface_interpolation(np.array(fx, dtype=float), np.array(fz, dtype=float))), dtype=float)
+        try:
+            with np.errstate(all="ignore"), warnings.catch_warnings():
+                warnings.simplefilter("ignore")
+                got = roll.surface_interpolation(ax, az)
+        except Exception as ex:
+            if not _in_pyroll(ex):
+                raise
+            ctx.violation("interpolation-raises-for:" + kclass,
+                          f"surface_interpolation raised {type(ex).__name__}: {ex} for a point inside the grid handed over as "
+                          f"{kx} {ax!r} / {kz} {az!r}", dict(rp, numeric=[spec]))
+            continue
+        gotf = np.asarray(got, dtype=float)
+        if gotf.shape != exp.shape and gotf.shape == exp.T.shape:
+            gotf = gotf.T
+        if gotf.shape != exp.shape:
+            ctx.violation("interpolation-shape-for:" + kclass,
+                          f"surface_interpolation({kx} {ax!r}, {kz} {az!r}) answers with shape {gotf.shape}, for float64 arrays "
+                          f"of the same positions with shape {exp.shape}", dict(rp, numeric=[spec]))
+            continue
+        bad = ~((np.abs(gotf - exp) <= tol) | (np.isnan(gotf) & np.isnan(exp)))
+        if bad.any():
+            i, j = (int(v) for v in np.argwhere(bad)[0])
+            ctx.violation("interpolation-by-numeric-type:" + kclass,
+                          f"surface_interpolation({kx} {ax!r}, {kz} {az!r}) answers {got!r}; for float64 arrays of the same "
+                          f"positions the answer is {exp!r}", dict(rp, numeric=[spec], x=fx[min(j, len(fx) - 1)],
+                                                                  z=fz[min(i, len(fz) - 1)]))
+
+
+def _oracle_roll_(ctx, desc, rdesc, g, roll, queries, symmetric_z=True, rp=None, stage="", second_evaluation=True,
+                  numeric=None):
     import numpy as np
     rp = rp if rp is not None else {"groove": desc, "roll": rdesc}
     ctx = _Staged(ctx, stage)
@@ -602,6 +952,10 @@ def _oracle_roll_(ctx, desc, rdesc, g, roll, queries, symmetric_z=True, rp=None,
                 ctx.violation("interpolated-high-point-differs",
                               f"surface_interpolation(0, {z!r}) = {v!r}, the contour polyline is at {ref!r}", dict(rp, z=z))
                 break
+    # the surface at a position, in whatever numeric type the caller holds the coordinates (every new roll, every replay that
+    # names such an argument, and one in three later looks at a used roll)
+    if not stage or numeric or ctx.rng.random() < 0.33:
+        _oracle_roll_numeric(ctx, rp, roll, xs, zs, tol, given=numeric)
     if not second_evaluation:
         return xs, zs, Y
     # a second evaluation on the used roll gives the same surface (nothing is kept from the first one but the cache)
@@ -733,7 +1087,7 @@ class _CountOnly:
         self._ctx.count("groove-replacement:" + key + ":counted-only(Roll.reevaluate_cache empties after the hook values)")
 
 
-def _roll_life(ctx, desc, rdesc, g, roll, batch, with_model, symmetric_z=True, extra_queries=None):
+def _roll_life(ctx, desc, rdesc, g, roll, batch, with_model, symmetric_z=True, extra_queries=None, numeric=None):
     """Everything `_oracle_roll` demands of a new roll is demanded again of the SAME object after each change of its data:
     a new contact length (the grid keeps its extent and size, its inner nodes move), no contact length any more, other radii,
     another discretisation count, a surface_x grid given by the user, the same after the value is taken back, after another
@@ -873,7 +1227,7 @@ def _roll_life(ctx, desc, rdesc, g, roll, batch, with_model, symmetric_z=True, e
             ok = xs.ndim == 1 and len(xs) > 0
             queries = _grid_queries(rng, xs, cp[:, 0], 10) if ok else []
             queries += _inside(extra_queries, xs, cp)
-            grid = _oracle_roll(ctx, desc, now, g, roll, queries, symmetric_z, rp=rp_i, stage=stage)
+            grid = _oracle_roll(ctx, desc, now, g, roll, queries, symmetric_z, rp=rp_i, stage=stage, numeric=numeric)
         if with_model and grid is not None and cur["nx"] is not None and not tainted:
             _batch_roll(batch, desc, now, g, roll, grid, queries, rng, rp=rp_i, explicit_x=cur["explicit_x"])
     ctx.case(["roll-life", desc0.get("cls"), [rdesc.get(k) for k in RADIUS_KEYS], rdesc.get("contact_length"), rdesc.get("nx"),
@@ -912,7 +1266,20 @@ def _random_polyline(rng):
             pr = pl
         pts = [(-w / 2 - pl, 0.0)] + pts + [(w / 2 + pr, 0.0)]
     pts = [[x + off, y] for x, y in pts]
-    return {"points": pts, "symmetric": sym and off == 0.0, "faces": faces, "scale": s, "touching": bool(touch and not sym)}
+    lattice = False
+    if rng.random() < 0.15:
+        # a polyline drawn on a lattice of whole numbers whose extent has a whole-numbered middle: after the centring every
+        # vertex abscissa is a whole number again (a caller may well hold such abscissae in integers)
+        u = s * rng.choice([0.5, 1.0, 2.0])
+        q = [[float(round(x / u)), float(round(y / u))] for x, y in pts]
+        q = [p for i, p in enumerate(q) if i == 0 or p[0] > q[i - 1][0]]
+        if (q[0][0] + q[-1][0]) % 2:
+            q[-1][0] += 1.0
+        inner_max = max((p[1] for p in q), default=0.0)
+        if len(q) >= 3 and inner_max > 0 and q[0][1] == 0 and q[-1][1] == 0 and all(b[0] > a[0] for a, b in zip(q, q[1:])):
+            pts, lattice, s = q, True, 1.0
+    return {"points": pts, "symmetric": sym and off == 0.0 and not lattice, "faces": faces and not lattice, "scale": s,
+            "touching": bool(touch and not sym), "lattice": lattice}
 
 
 def _refine(rng, pts):
@@ -1028,6 +1395,12 @@ def _oracle_spline(ctx, sdesc, g, g2, queries):
                           f"local_depth({q!r}) = {v!r}; the polyline, measured from the middle of its extent, is at {ref!r}",
                           dict(rp, z=q))
             break
+    # the depth at an abscissa is the depth at that abscissa, in whatever numeric type the caller holds it
+    _integer_vertices(ctx, rp, g, cp, tol, "spline-vertex-off-depth-function:integer-abscissa" + stage, "the spline groove's")
+    lo, hi = 1.1 * float(cp[0, 0]), 1.1 * float(cp[-1, 0])
+    _oracle_numeric_kinds(ctx, rp, g.local_depth, lambda p: float(np.asarray(g.local_depth(float(p)), dtype=float)), lo, hi,
+                          _integer_fixed(lo, hi, [float(v) for v in cp[:, 0]]), S, "spline-depth", stage=stage,
+                          given=sdesc.get("numeric"))
     # independent of the sampling: the refined polyline gives the same groove
     if g2 is not None:
         rp2 = dict(rp, refined=sdesc["refined"], mode=sdesc.get("mode"))
@@ -1150,7 +1523,7 @@ def _groove_env(g):
     return env
 
 
-def _batch_groove(batch, desc, g, qs, info):
+def _batch_groove(batch, desc, g, qs, info, rng):
     import numpy as np
     env = _groove_env(g)
     L = _size(np.asarray(g.contour_points))
@@ -1176,6 +1549,23 @@ def _batch_groove(batch, desc, g, qs, info):
         d = np.asarray(g.local_depth(np.array(qs)), dtype=float)
     batch.add("depth " + " ".join(str(bits(q)) for q in qs), "list",
               dict(what="local_depth", real=[float(v) for v in d], args=qs, tol=1e-8 * L, replay={"groove": desc}))
+    # ... and with what the source does to its ARGUMENT (`depth_arg_ops`): integer abscissae (a python list of ints, an int64
+    # array) and float ones; the model says in which dtype each value comes back (an integer one = truncated) and which value
+    hi = 1.1 * float(g.z0)
+    fixed = _integer_fixed(-hi, hi, [float(getattr(g, n)) for n in JUNCTIONS])
+    rng.shuffle(fixed)
+    ints = _values_of_class(rng, "int", -hi, hi, 6, fixed=fixed)
+    for how, arg in (("int-list", [int(v) for v in ints]), ("int64-array", np.array(ints, dtype=np.int64)),
+                     ("float64-array", np.array(qs[:6], dtype=float))):
+        with np.errstate(all="ignore"):
+            r = np.asarray(g.local_depth(arg))
+        integral = r.dtype.kind in "iu"
+        real = [("i", int(v)) if integral else ("f", float(v)) for v in r.reshape(-1)]
+        line = "deptharg " + ("f " + " ".join(str(bits(float(v))) for v in arg) if how == "float64-array"
+                              else "i " + " ".join(str(int(v)) for v in arg))
+        batch.add(line, "argkinds", dict(what=f"local_depth({how} {[float(v) if how == 'float64-array' else int(v) for v in arg]!r})",
+                                         real=real, tol=1e-8 * L,
+                                         replay={"groove": desc, "numeric": [{"kind": how, "values": [float(v) if how == "float64-array" else int(v) for v in arg]}]}))
 
 
 def _batch_roll(batch, desc, rdesc, g, roll, grid, queries, rng, rp=None, explicit_x=False):
@@ -1213,6 +1603,27 @@ def _batch_roll(batch, desc, rdesc, g, roll, grid, queries, rng, rp=None, explic
         real = _si(roll, x, z)
         batch.add(f"interp {bits(x)} {bits(z)}", "scalar",
                   dict(what=f"surface_interpolation({x!r}, {z!r})", real=real, tol=1e-9 * R, replay=dict(rp, x=x, z=z)))
+    # the array form with what the source does to the two positions (`interp_x_ops`, `interp_z_ops`) and the layout of the
+    # result: integer positions (int64 arrays), float positions, and integers for one coordinate only
+    xlo, xhi, zlo, zhi = float(xs[0]), float(xs[-1]), float(zs[0]), float(zs[-1])
+    fx, fz = _integer_fixed(xlo, xhi), _integer_fixed(zlo, zhi)
+    rng.shuffle(fx)
+    rng.shuffle(fz)
+    ix = _values_of_class(rng, "int", xlo, xhi, 3, fixed=fx)
+    iz = _values_of_class(rng, "int", zlo, zhi, 2, fixed=fz)
+    qx, qz = [q[0] for q in queries[:3]] or [0.0], [q[1] for q in queries[3:5]] or [0.0]
+    for (kx, vx), (kz, vz) in ((("i", ix), ("i", iz)), (("f", qx), ("f", qz)), (("i", ix), ("f", qz))):
+        if not vx or not vz:
+            continue
+        ax = np.array(vx, dtype=np.int64 if kx == "i" else float)
+        az = np.array(vz, dtype=np.int64 if kz == "i" else float)
+        real = np.asarray(roll.surface_interpolation(ax, az), dtype=float)
+        tok = lambda k, v: k + " " + " ".join(str(int(a)) if k == "i" else str(bits(float(a))) for a in v)
+        batch.add(f"interparg {tok(kx, vx)} / {tok(kz, vz)}", "rows",
+                  dict(what=f"surface_interpolation({ax!r}, {az!r})", real=real, tol=1e-9 * R,
+                       replay=dict(rp, numeric=[{"kind": "int64-array" if kx == "i" else "float64-array",
+                                                 "kind_z": "int64-array" if kz == "i" else "float64-array",
+                                                 "x": [a.item() for a in ax], "z": [a.item() for a in az]}])))
 
 
 def _batch_spline(batch, sdesc, g, queries):
@@ -1396,6 +1807,27 @@ def _run_batch(ctx, batch):
                                      dict(p["replay"], at=arg))
                 else:
                     ctx.validated()
+            elif kind == "argkinds":
+                m = [(t[0], int(t[2:]) if t[0] == "i" else unbits(t[2:])) for t in o.split()]
+                if any(t[1] != ":" for t in o.split()) or len(m) != len(p["real"]):
+                    raise ValueError(o)
+                bad = [k for k, (a, b) in enumerate(zip(m, p["real"]))
+                       if a[0] != b[0] or not (a[1] == b[1] if a[0] == "i" else
+                                               (abs(a[1] - b[1]) <= p["tol"] or (math.isnan(a[1]) and math.isnan(b[1]))))]
+                if bad:
+                    ctx.disagreement(f"{p['what']} (i: = handed back in an integer dtype, truncated; f: = as a float): model "
+                                     f"{m!r}, implementation {p['real']!r}", p["replay"])
+                else:
+                    ctx.validated()
+            elif kind == "rows":
+                m = np.array([floats(row) for row in o.split("|")], dtype=float)
+                if m.shape != p["real"].shape:
+                    ctx.disagreement(f"{p['what']}: the model answers with shape {m.shape} (one row per z, one column per x), "
+                                     f"the implementation with shape {p['real'].shape}", p["replay"])
+                elif not np.all((np.abs(m - p["real"]) <= p["tol"]) | (np.isnan(m) & np.isnan(p["real"]))):
+                    ctx.disagreement(f"{p['what']}: model {m.tolist()!r}, implementation {p['real'].tolist()!r}", p["replay"])
+                else:
+                    ctx.validated()
             elif kind == "polyline":
                 vs = floats(o)
                 m = np.array(vs, dtype=float).reshape(-1, 2)
@@ -1526,7 +1958,7 @@ def _check_hypotheses(ctx, g, L):
     return True
 
 
-def _groove_case(ctx, desc, batch, with_model, roll_budget, rolls=None, roll_queries=None):
+def _groove_case(ctx, desc, batch, with_model, roll_budget, rolls=None, roll_queries=None, numeric=None):
     import numpy as np
     try:
         g = _build_groove(desc)
@@ -1549,10 +1981,10 @@ def _groove_case(ctx, desc, batch, with_model, roll_budget, rolls=None, roll_que
     if generic and not hyp:
         # outside the theorems' hypotheses (a step at z4 the constructor accepted): C03/C04 territory, not judged here
         return
-    _oracle_groove(ctx, desc, g, qs)
+    _oracle_groove(ctx, desc, g, qs, numeric=numeric)
     info = getattr(ctx, "c10_info", None)
     if with_model and generic and info is not None:
-        _batch_groove(batch, desc, g, qs, info)
+        _batch_groove(batch, desc, g, qs, info, ctx.rng)
     # rolls
     for i_roll in range(roll_budget):
         if rolls and i_roll < len(rolls):
@@ -1566,7 +1998,7 @@ def _groove_case(ctx, desc, batch, with_model, roll_budget, rolls=None, roll_que
             xs = np.asarray(_read_or_none(lambda: roll.surface_x), dtype=float)
             queries = _grid_queries(ctx.rng, xs, cp[:, 0], 14) if xs.ndim == 1 and len(xs) else []
             queries += _inside(roll_queries, xs, cp)
-            grid = _oracle_roll(ctx, desc, rdesc, g, roll, queries)
+            grid = _oracle_roll(ctx, desc, rdesc, g, roll, queries, numeric=numeric)
         ctx.case(["roll", desc["cls"], [rdesc.get(k) for k in RADIUS_KEYS], rdesc.get("contact_length"), rdesc["nx"]],
                  nontrivial=rdesc["mode"] == "set" or rdesc["nx"] is not None or rdesc["radius_mode"] != "nominal_radius")
         ctx.count("roll:" + rdesc["mode"])
@@ -1575,7 +2007,8 @@ def _groove_case(ctx, desc, batch, with_model, roll_budget, rolls=None, roll_que
             _batch_roll(batch, desc, rdesc, g, roll, grid, queries, ctx.rng)
         # the same roll object goes on living
         if grid is not None and (rdesc.get("ops") is not None or ctx.rng.random() < 0.7):
-            _roll_life(ctx, desc, rdesc, g, roll, batch, with_model and info is not None, extra_queries=roll_queries)
+            _roll_life(ctx, desc, rdesc, g, roll, batch, with_model and info is not None, extra_queries=roll_queries,
+                       numeric=numeric)
 
 
 def _spline_case(ctx, sdesc, batch, with_model):
@@ -1604,6 +2037,8 @@ def _spline_case(ctx, sdesc, batch, with_model):
     ctx.count("spline-input:" + kind)
     if sdesc.get("touching"):
         ctx.count("spline:touching-face-line-inside")
+    if sdesc.get("lattice"):
+        ctx.count("spline:whole-numbered-vertices")
     if sdesc.get("mode"):
         ctx.count("refine:" + sdesc["mode"])
     if g is None:
@@ -1641,10 +2076,10 @@ def _spline_case(ctx, sdesc, batch, with_model):
                 q += _inside(sdesc.get("roll_queries"), xs, cp)
                 gdesc = {"cls": "SplineGroove", "kwargs": {}, "points": sdesc["points"],
                          "usable_width": sdesc.get("usable_width"), "input": kind}
-                grid = _oracle_roll(ctx, gdesc, rdesc, g, roll, q, symmetric_z=False)
+                grid = _oracle_roll(ctx, gdesc, rdesc, g, roll, q, symmetric_z=False, numeric=sdesc.get("numeric"))
             if grid is not None and (rdesc.get("ops") is not None or ctx.rng.random() < 0.7):
                 _roll_life(ctx, gdesc, rdesc, g, roll, batch, False, symmetric_z=False,
-                           extra_queries=sdesc.get("roll_queries"))
+                           extra_queries=sdesc.get("roll_queries"), numeric=sdesc.get("numeric"))
             ctx.count("roll-on-spline")
             ctx.count("roll-radius:" + rdesc.get("radius_mode", "nominal_radius"))
     # the caller goes on using ITS container (rescales it, builds the next member of a family from it, ...): every groove
@@ -1721,7 +2156,7 @@ def _random_pass_desc(rng):
             "nx": rng.choice([None, rng.randrange(2, 25)]), "look_before_solve": rng.random() < 0.4, "profiles": profiles}
 
 
-def _pass_roll_case(ctx, pdesc, batch, with_model, extra_queries=None):
+def _pass_roll_case(ctx, pdesc, batch, with_model, extra_queries=None, numeric=None):
     """In ordinary use the data of a roll change without the user touching it: the pass computes the contact length anew in
     every solution iteration and for every incoming profile.  The roll of the pass is looked at (everything `_oracle_roll`
     demands) before the first solution if the description says so, and after every solution.  A solution that fails is not
@@ -1760,7 +2195,7 @@ def _pass_roll_case(ctx, pdesc, batch, with_model, extra_queries=None):
                 _inside(extra_queries, xs, cp)
             # no second evaluation here: re-evaluating the roll alone, outside a solution iteration, is not how its values are
             # refreshed, and the grid of a roll looked at before the first solution lags one iteration behind the contact length
-            grid = _oracle_roll(ctx, gdesc, now, g, roll, queries, rp=rp, stage=stage, second_evaluation=False)
+            grid = _oracle_roll(ctx, gdesc, now, g, roll, queries, rp=rp, stage=stage, second_evaluation=False, numeric=numeric)
         if with_model and grid is not None and nx is not None:
             _batch_roll(batch, gdesc, now, g, roll, grid, queries, ctx.rng, rp=rp, explicit_x=True)
 
@@ -1802,7 +2237,8 @@ def run(ctx):
     rng = ctx.rng
     # corpus first
     for d in CORPUS_GROOVES:
-        _groove_case(ctx, dict(d, pad_mode="30" if d["kwargs"].get("pad_angle") else "0"), batch, with_model, 1)
+        _groove_case(ctx, dict({k: v for k, v in d.items() if k != "numeric"}, pad_mode="30" if d["kwargs"].get("pad_angle") else "0"),
+                     batch, with_model, 1, numeric=d.get("numeric"))
     for s in CORPUS_SPLINES:
         _spline_case(ctx, dict(s, mode="corpus"), batch, with_model)
     for s in CORPUS_SEQUENCES:
@@ -1847,8 +2283,9 @@ def replay(ctx, data):
     ctx.rng = random.Random(0)
     rq = [(r["x"], r["z"])] if "x" in r and "z" in r else ([(0.0, r["z"])] if "z" in r and ("roll" in r or "pass" in r)
                                                            else None)
+    num = r.get("numeric")
     if "pass" in r:
-        _pass_roll_case(ctx, r["pass"], batch, with_model, extra_queries=rq)
+        _pass_roll_case(ctx, r["pass"], batch, with_model, extra_queries=rq, numeric=num)
     elif "roll_object_life" in r:
         ctx.c10_replayed_roll_object_life = True     # K only: re-run by the ordinary stream (needs the model)
     elif "spline" in r:
@@ -1856,12 +2293,13 @@ def replay(ctx, data):
         _spline_case(ctx, dict(points=s.get("first_points") or s.get("original") or s["points"],
                                refined=(s["points"] if s.get("is_refined") else None) or s.get("refined") or r.get("refined"),
                                usable_width=s.get("usable_width"), mode=s.get("mode") or "replay",
-                               input=s.get("input"), reuse=s.get("reuse")), batch, with_model)
+                               input=s.get("input"), reuse=s.get("reuse"), numeric=num), batch, with_model)
     elif "groove" in r and r["groove"].get("cls") == "SplineGroove":
         gd = r["groove"]
         _spline_case(ctx, dict(points=gd["points"], refined=None, usable_width=gd.get("usable_width"), mode="replay",
-                               input=gd.get("input"), roll=r.get("roll"), roll_queries=rq), batch, with_model)
+                               input=gd.get("input"), roll=r.get("roll"), roll_queries=rq, numeric=num), batch, with_model)
     elif "groove" in r:
-        _groove_case(ctx, r["groove"], batch, with_model, 2, rolls=[r["roll"]] if r.get("roll") else None, roll_queries=rq)
+        _groove_case(ctx, r["groove"], batch, with_model, 2, rolls=[r["roll"]] if r.get("roll") else None, roll_queries=rq,
+                     numeric=num)
     if with_model:
         _run_batch(ctx, batch)
